@@ -14,7 +14,11 @@ From SF Require Comb.Model.
 Import ListNotations.
 Local Open Scope string_scope. Local Open Scope list_scope.
 
-(* The generic network theorem.  For ANY round function honouring the contract
+(* Well-formedness ([wf_net]) asks every step to have at least one input port: the `else` branches of Transformer.run /
+   ConditionalStep.run for a step WITHOUT input ports (transform({}) once, then terminate) are NOT covered by these
+   theorems (such a step is a source: it fires once unconditionally; the harness does not generate it either).
+
+   The generic network theorem.  For ANY round function honouring the contract
      (1) a round that reads a termination token terminates the step,
      (2) a round emits one token list per output port,  (3) those lists contain no termination token
    [BaseStep.terminate then adds exactly one termination token per output port: that part is in the model],
@@ -185,28 +189,77 @@ Proof. exact failed_round_status. Qed.
 Theorem C04_terminal_status : forall l any_empty, terminal (get_status (reduce_o l) any_empty) = true.
 Proof. exact get_status_terminal. Qed.
 
-(* Executor (closing logic of StreamFlowExecutor as repaired by the fix: commit 7a62372): whichever way the output loop
-   ends — a FAILED/CANCELLED termination token on an output port (_cancel) or the last port terminating
-   (close) — no step is left unterminated when run() returns or raises, and run() raises exactly when some
-   step status is FAILED/CANCELLED. *)
-Theorem C04_executor_terminates_all : forall failed_out bad u,
-  unterminated (snd (x_run_tail x_cancel failed_out bad (mkX false u))) = 0 /\
-  closed (snd (x_run_tail x_cancel failed_out bad (mkX false u))) = true.
+(* Executor (closing logic of StreamFlowExecutor as repaired by the fix: commit 7a62372).  State: _closed and every
+   step's (terminated, status).  close() turns every unterminated step into a terminated CANCELLED one; the raise of
+   run() is READ OFF the state (`if step.status in [FAILED, CANCELLED]: raise`), it is not an input.
+   Not modelled, by name: the branch of _wait_outputs that re-opens a closed executor when a new workflow output
+   port appears (ports added while running: recovery), and run() for a workflow without output ports. *)
+
+(* whichever way the output loop ended (failed_out: a FAILED/CANCELLED token on an output port -> _cancel; otherwise
+   the last port terminated -> close()), when run() returns or raises every step is terminated *)
+Theorem C04_executor_terminates_all : forall failed_out x, closed x = false ->
+  forallb xs_term (xsteps (snd (x_run_tail x_cancel failed_out x))) = true /\
+  closed (snd (x_run_tail x_cancel failed_out x)) = true.
 Proof. exact x_run_tail_terminates_all. Qed.
-Theorem C04_executor_raises_iff_bad_status : forall failed_out bad x,
-  fst (x_run_tail x_cancel failed_out bad x) = bad.
-Proof. exact x_run_tail_raises. Qed.
-(* the code before the fix: _cancel only set _closed, so the handler's close() was a no-op and every step
-   that was unterminated when the failed token arrived stayed so (u of them, for every u) *)
-Theorem C04_prefix_cancel_leaves_steps_refuted : forall u,
-  unterminated (snd (x_run_tail x_cancel_prefix true true (mkX false u))) = u.
+
+(* run() raises exactly when some step is FAILED/CANCELLED or was still running when the loop ended *)
+Theorem C04_executor_raises_iff_bad_status : forall failed_out x, closed x = false ->
+  (fst (x_run_tail x_cancel failed_out x) = true <->
+   exists s, In s (xsteps x) /\ (xs_bad s = true \/ xs_term s = false)).
+Proof. exact x_run_tail_raises_iff. Qed.
+
+(* network side: in every reachable state of a network of round machines (any interleaving), an output history that
+   contains a FAILED termination token belongs to a step whose status is FAILED ... *)
+Theorem C04_failed_token_means_failed_step :
+  forall (L spec : Type) (s_ins : spec -> list src) (s_nout : spec -> nat)
+         (fire : spec -> L -> list (list tok) -> list tok -> L * list (list tok) * option status)
+         (init_loc : spec -> L) (win : list (list tok)) (specs : list spec),
+    fire_contract L spec s_nout fire ->
+    forall ch st x l,
+      exec L spec s_ins fire win specs (init_state L spec s_nout init_loc specs) ch = Some st ->
+      In x st -> In l (souts x) -> In (Term FAILED) l -> sterm x = Some FAILED.
+Proof. exact failed_token_failed_step. Qed.
+
+(* ... hence "if any step fails the executor raises and every step ends terminated": with the executor started in the
+   state of the network ([net_xstate]: a step is terminated iff it has emitted its termination tokens), a FAILED
+   termination token on ANY port makes run() raise, on either path, and every step is terminated when it does *)
+Theorem C04_failure_raises_and_terminates_all :
+  forall (L spec : Type) (s_ins : spec -> list src) (s_nout : spec -> nat)
+         (fire : spec -> L -> list (list tok) -> list tok -> L * list (list tok) * option status)
+         (init_loc : spec -> L) (win : list (list tok)) (specs : list spec),
+    fire_contract L spec s_nout fire ->
+    forall ch st x l failed_out,
+      exec L spec s_ins fire win specs (init_state L spec s_nout init_loc specs) ch = Some st ->
+      In x st -> In l (souts x) -> In (Term FAILED) l ->
+      fst (x_run_tail x_cancel failed_out (net_xstate st)) = true /\
+      forallb xs_term (xsteps (snd (x_run_tail x_cancel failed_out (net_xstate st)))) = true.
+Proof. exact failure_raises_and_terminates. Qed.
+
+(* the code before the fix: _cancel only set _closed, so with a failed step the handler's close() was a no-op and the
+   steps were left exactly as they were, unterminated ones included *)
+Theorem C04_prefix_cancel_leaves_steps_refuted : forall x, closed x = false -> existsb xs_bad (xsteps x) = true ->
+  x_run_tail x_cancel_prefix true x = (true, mkX true (xsteps x)).
 Proof. exact x_prefix_leaves. Qed.
 
-(* known finding (known/C04.txt, sig net/completes/close/tg/sink): on the NORMAL path, a step that is still running
-   when the last workflow output port terminates (its own outputs are not workflow outputs) is CANCELLED by
-   close(), and run() raises although nothing failed *)
-Theorem C04_straggler_makes_run_raise_refuted : forall u, u <> 0 -> x_normal_path_raises u false = true.
-Proof. intros [|u] H; [congruence|reflexivity]. Qed.
+(* known finding (known/C04.txt, sig net/completes/close/tg/sink): on the NORMAL path a step that is still running when
+   the last workflow output port terminates (its own outputs are not workflow outputs) is CANCELLED by close() and
+   run() raises although no step failed *)
+Theorem C04_straggler_makes_run_raise_refuted : forall x, closed x = false ->
+  (exists s, In s (xsteps x) /\ xs_term s = false) -> fst (x_run_tail x_cancel false x) = true.
+Proof. exact x_straggler_raises. Qed.
+
+(* instances: /a FAILED and terminated, /b still WAITING.  Repaired code: raise, /b CANCELLED and terminated.
+   Pre-fix code: raise, /b left WAITING and unterminated.  Nothing failed but /b is a straggler: raise. *)
+Example C04_executor_examples :
+  x_run_tail x_cancel true (mkX false [mkXS true FAILED; mkXS false WAITING]) =
+    (true, mkX true [mkXS true FAILED; mkXS true CANCELLED]) /\
+  x_run_tail x_cancel_prefix true (mkX false [mkXS true FAILED; mkXS false WAITING]) =
+    (true, mkX true [mkXS true FAILED; mkXS false WAITING]) /\
+  x_run_tail x_cancel false (mkX false [mkXS true COMPLETED; mkXS false WAITING]) =
+    (true, mkX true [mkXS true COMPLETED; mkXS true CANCELLED]) /\
+  x_run_tail x_cancel false (mkX false [mkXS true COMPLETED; mkXS true SKIPPED]) =
+    (false, mkX true [mkXS true COMPLETED; mkXS true SKIPPED]).
+Proof. repeat split; reflexivity. Qed.
 
 (* scatter -> transform -> gather as log machines, two interleavings (size token before / after the elements): the
    gathered list is the original one; and the gather cannot move before anything was scattered *)
@@ -294,5 +347,7 @@ Print Assumptions C04_failed_absorbing_round_partial.
 Print Assumptions C04_terminal_status.
 Print Assumptions C04_executor_terminates_all.
 Print Assumptions C04_executor_raises_iff_bad_status.
+Print Assumptions C04_failed_token_means_failed_step.
+Print Assumptions C04_failure_raises_and_terminates_all.
 Print Assumptions C04_prefix_cancel_leaves_steps_refuted.
 Print Assumptions C04_straggler_makes_run_raise_refuted.
